@@ -394,7 +394,11 @@ def lnot(x):
 
 
 def implies(a, b):
-    return lor(lnot(a), b)
+    if isinstance(a, bool):
+        return b if a else True
+    if isinstance(b, bool):
+        return True if b else lnot(a)
+    return z3.Implies(a, b)
 
 
 # --------------------------------------------------------------------------- theory
@@ -498,6 +502,14 @@ def theory_axioms(terms, extra_trig=False):
     seen = ground_subterms(terms)
     ax = []
     has_pi = False
+    # integer-valued real terms anywhere in the problem (windings of periodic grids, quotients of real modulos)
+    int_terms = {}
+    for y in seen.values():
+        if z3.is_app(y) and y.decl().kind() == z3.Z3_OP_TO_REAL and not z3.is_int_value(y.arg(0)):
+            int_terms[y.get_id()] = y
+        elif z3.is_app(y) and y.decl().kind() == z3.Z3_OP_TO_INT:
+            int_terms[y.get_id()] = z3.ToReal(y)
+    int_terms = list(int_terms.values())[:8]
     for x in list(seen.values()):
         if not z3.is_app(x):
             continue
@@ -525,13 +537,26 @@ def theory_axioms(terms, extra_trig=False):
                 other = UF1["cos" if n == "sin" else "sin"](a)
                 if extra_trig:
                     ax.append(x * x + other * other == 1)
-                # 2*pi periodicity: for every integer-valued sub-term k = ToInt(..) of the argument,
-                # f(a) == f(a + 2*pi*k)  (valid for any integer k)
+                # 2*pi periodicity: for every integer-valued sub-term k of the argument (ToInt(..) produced by a real
+                # modulo, or ToReal(k) of an integer term), f(a) == f(a + 2*pi*k)  (valid for any integer k)
+                ks = {}
                 for y in subterms(a).values():
                     if z3.is_app(y) and y.decl().kind() == z3.Z3_OP_TO_INT:
-                        shifted = z3.simplify(a + 2 * PI * z3.ToReal(y), som=True)
+                        ks[y.get_id()] = z3.ToReal(y)
+                    elif z3.is_app(y) and y.decl().kind() == z3.Z3_OP_TO_REAL and not z3.is_int_value(y.arg(0)):
+                        ks[y.get_id()] = y
+                if extra_trig:
+                    for kr in int_terms:
+                        ks.setdefault(kr.get_id(), kr)
+                for kr in ks.values():
+                    for sgn in (1, -1):
+                        shifted = z3.simplify(a + sgn * 2 * PI * kr, som=True)
                         ax.append(x == UF1[n](shifted))
-                        has_pi = True
+                    has_pi = True
+                if extra_trig:
+                    # parity: cos(-a) = cos(a), sin(-a) = -sin(a)
+                    na = z3.simplify(-a, som=True)
+                    ax.append(x == (UF1[n](na) if n == "cos" else -UF1[n](na)))
             elif n == "tanh":
                 ax.append(z3.And(x > -1, x < 1))
                 ax.append(z3.Implies(a > 0, x > 0))
